@@ -699,6 +699,16 @@ def unreadable_causes(case, inputs):
     return sorted(causes & open_findings())
 
 
+# a value with a comma / bracket / '=' (F36) or a text with '[' / '=' (F37) changes how the reader's regular expressions cut
+# the WHOLE line (e.g. an unquoted `label=[` opens a list that swallows the following `coord=ICRS`): in such a case every
+# reading-rule / round-trip clause about that file may fail as a consequence of the same finding.  `file_read_differs`
+# (the file layer), `unitless_length_accepted`, `serialize_exception`, `nondeterministic`, `input_mutated` are NOT in the list.
+SPILL_KINDS = ('label_lost', 'meta_lost', 'meta_changed', 'text_lost', 'not_fixed_point', 'region_count', 'class_changed',
+               'geometry_off', 'include_sense', 'annotation_type',
+               'valid_file_rejected', 'override_rule', 'frame_rule', 'kind_rule', 'include_rule', 'ann_rule', 'coordinate_rule',
+               'length_rule', 'ellipse_rule', 'box_rule', 'text_rule')
+
+
 def primary_cause(v):
     c = [x for x in ('F37', 'F36', 'F20', 'F21', 'F33', 'F19') if x in v.get('causes', [])]
     return c[0] if c else None
@@ -1199,13 +1209,11 @@ class Check(PropertyCheck):
         if fid == 'F36':
             # labels / scalar values that regex_meta does not hand back unchanged
             return (k in ('label_lost', 'meta_lost', 'override_rule', 'not_fixed_point') and bool(v.get('hostile'))) or \
-                   (bool(v.get('spill')) and k in ('label_lost', 'meta_lost', 'meta_changed', 'override_rule', 'not_fixed_point',
-                                                   'valid_file_rejected', 'region_count', 'include_rule', 'ann_rule')) or \
+                   (bool(v.get('spill')) and k in SPILL_KINDS) or \
                    (k == 'roundtrip_unreadable' and primary_cause(v) == 'F36')
         if fid == 'F37':
             return (k == 'roundtrip_unreadable' and primary_cause(v) == 'F37') or \
-                   (bool(v.get('text_spill')) and k in ('valid_file_rejected', 'text_lost', 'text_rule', 'label_lost',
-                                                        'override_rule', 'region_count', 'class_changed', 'kind_rule'))
+                   (bool(v.get('text_spill')) and k in SPILL_KINDS)
         if fid == 'F34':
             return k == 'geometry_off' and bool(v.get('nondefault_attrs'))
         if fid == 'F31':
